@@ -415,6 +415,7 @@ fn extra_to_value(x: &PExtra) -> serde_json::Value { serde_json::json!({"absorbi
 fn value_to_extra(v: &serde_json::Value) -> PExtra { if v.is_null() { return PExtra::default(); }     // (witness files written before the repeat forms were added have no "x")
   PExtra { absorbing: value_to_mods(&v["absorbing"]), special: if v["special"].is_null() { None } else { let sp = &v["special"];
     Some(PSpec { mods: value_to_mods(&sp["mods"]), key: kc(&sp["key"]), letters: sp["letters"].as_str().unwrap().to_string(), delay: sp["delay"].as_i64().unwrap() as i32, interval: sp["interval"].as_i64().unwrap() as i32 }) } } }
+pub fn program_value(p: &Vec<PItem>) -> serde_json::Value { prog_to_value(p) }
 fn prog_to_value(p: &Vec<PItem>) -> serde_json::Value { serde_json::Value::Array(p.iter().map(|it| match it {
   PItem::AliasDef { name, keys } => serde_json::json!({"kind": "alias", "name": name, "keys": keys.iter().map(|k| format!("{:?}", k)).collect::<Vec<_>>()}),
   PItem::Single { mods, key, to_mods, to_key, disabled, x } => serde_json::json!({"kind": "single", "mods": mods_to_value(mods), "key": format!("{:?}", key), "to_mods": mods_to_value(to_mods), "to_key": format!("{:?}", to_key), "disabled": disabled, "x": extra_to_value(x)}),
